@@ -582,7 +582,12 @@ def _format_precision(ctx, col):
         arg = calls[0].args[0] if calls[0].args else None
         # get_convergence_format rejects anything that is not a Python float (TypeError), while a validated epsilon may be an
         # int and the threshold may be a 0-d array: the argument must be converted with float(...)
-        is_float = isinstance(arg, ast.Call) and isinstance(arg.func, ast.Name) and arg.func.id == "float" and len(arg.args) == 1
+        src_arg = arg
+        if isinstance(arg, ast.Name):  # a temporary bound once
+            ds = [s_ for s_ in ast.walk(fn) if isinstance(s_, ast.Assign) and len(s_.targets) == 1 and isinstance(s_.targets[0], ast.Name) and s_.targets[0].id == arg.id]
+            if len(ds) == 1:
+                src_arg = ds[0].value
+        is_float = isinstance(src_arg, ast.Call) and isinstance(src_arg.func, ast.Name) and src_arg.func.id == "float" and len(src_arg.args) == 1
         col.add("R20.5", construct, owner.module.relpath, calls[0].lineno, is_float,
                 "the threshold is converted with float(...) before it is formatted" if is_float else
                 f"`{norm_text(calls[0])[:80]}` passes the threshold unconverted: get_convergence_format raises TypeError('epsilon must be a float') "
